@@ -6,6 +6,7 @@ import (
 	"errors"
 	"fmt"
 	"math/rand"
+	"os"
 	"runtime"
 	"sort"
 	"strings"
@@ -107,6 +108,8 @@ var c16model = porcupine.Model{
 			return o.Err == "" && o.Val == s, s
 		case "root":
 			return o.Val == refRootOf(s), s
+		case "snap": // GetChanges: root and the content reachable through the returned changes belong to one state
+			return o.Val == refRootOf(s) && o.Err == "content:"+s, s
 		}
 		return false, s
 	},
@@ -136,6 +139,48 @@ func (j *jitterDB) GetNode(k util.Key) (util.Node, error) { j.jitter(); return j
 func (j *jitterDB) PutNode(k util.Key, n util.Node) error { j.jitter(); return j.NodeDB.PutNode(k, n) }
 func (j *jitterDB) DeleteNode(k util.Key) error           { j.jitter(); return j.NodeDB.DeleteNode(k) }
 
+// contentFromChanges walks from root through the New nodes of a change set and returns "content:<canonical content>",
+// or a description of the first node that is not in the set.
+func contentFromChanges(root util.Key, changes []*util.NodeChange) string {
+	byHash := map[string]util.Node{}
+	for _, ch := range changes {
+		byHash[string(ch.New.GetHashBytes())] = ch.New
+	}
+	out := map[string]string{}
+	var walk func(key []byte, path string) string
+	walk = func(key []byte, path string) string {
+		n, ok := byHash[string(key)]
+		if !ok {
+			return fmt.Sprintf("torn snapshot: node %x at path %q reachable from the returned root is not among the returned changes", key[:4], path)
+		}
+		switch t := n.(type) {
+		case *util.LeafNode:
+			out[path+string(t.Path)] = string(t.GetValueBytes())
+		case *util.FullNode:
+			if t.HasValue() {
+				out[path] = string(t.GetValueBytes())
+			}
+			for i, ch := range t.Children {
+				if ch != nil {
+					if e := walk(ch, path+string("0123456789abcdef"[i])); e != "" {
+						return e
+					}
+				}
+			}
+		case *util.ExtensionNode:
+			return walk(t.NodeKey, path+string(t.Path))
+		}
+		return ""
+	}
+	if len(root) == 0 {
+		return "content:"
+	}
+	if e := walk(root, ""); e != "" {
+		return e
+	}
+	return "content:" + contentStr(out)
+}
+
 func errClass(err error) string {
 	switch {
 	case err == nil:
@@ -159,6 +204,10 @@ func c16history(c *fw.Ctx) {
 	if !c.Quick() {
 		nops = 4 + r.Intn(8)
 	}
+	if os.Getenv("VERIF_C16_SEQ") == "1" { // debugging aid: one goroutine, long script
+		G = 1
+		nops = 40
+	}
 	var side util.NodeDB = util.NewMemoryNodeDB()
 	m := lab.NewMPT(&jitterDB{NodeDB: util.NewMemoryNodeDB()}, c16version, nil)
 	scripts := make([][]linIn, G)
@@ -181,7 +230,7 @@ func c16history(c *fw.Ctx) {
 			case 10:
 				scripts[g] = append(scripts[g], linIn{"rootc", "", ""}) // root through GetChanges
 			default:
-				scripts[g] = append(scripts[g], linIn{"save", "", ""}) // SaveChanges to a side store + GetChangeCount (race detector only)
+				scripts[g] = append(scripts[g], linIn{"save", "", strings.Repeat("x", r.Intn(3))}) // SaveChanges (plain / cancelled / expiring ctx) to a side store + GetChangeCount
 			}
 		}
 	}
@@ -222,12 +271,26 @@ func c16history(c *fw.Ctx) {
 				case "root":
 					o.Val = fmt.Sprintf("%x", []byte(m.GetRoot()))
 				case "rootc":
-					root, _, _, _ := m.GetChanges()
+					// GetChanges must be an atomic snapshot: the trie started empty, so every node reachable from the
+					// returned root must be among the returned changes, and the content read from them is the state
+					root, changes, _, _ := m.GetChanges()
 					o.Val = fmt.Sprintf("%x", []byte(root))
-					in.Op = "root"
+					o.Err = contentFromChanges(root, changes)
+					in.Op = "snap"
 				case "save":
 					_ = m.GetChangeCount()
-					_ = m.SaveChanges(context.Background(), side, false)
+					switch len(op.Val) % 3 {
+					case 0:
+						_ = m.SaveChanges(context.Background(), side, false)
+					case 1: // already cancelled: SaveChanges returns at once, the saver goroutine keeps running concurrently with writers
+						cctx, cancel := context.WithCancel(context.Background())
+						cancel()
+						_ = m.SaveChanges(cctx, side, false)
+					default:
+						cctx, cancel := context.WithTimeout(context.Background(), 20*time.Microsecond)
+						_ = m.SaveChanges(cctx, side, false)
+						cancel()
+					}
 					rec = false
 				}
 				ret := int64(time.Since(start))
@@ -250,6 +313,20 @@ func c16history(c *fw.Ctx) {
 	}
 	ops = append(ops, porcupine.Operation{ClientId: G, Input: linIn{"iter", "", ""}, Call: t1, Output: linOut{Val: contentStr(sm), Err: errClass(err)}, Return: t1 + 1})
 	ops = append(ops, porcupine.Operation{ClientId: G, Input: linIn{"root", "", ""}, Call: t1 + 2, Output: linOut{Val: fmt.Sprintf("%x", []byte(m.GetRoot()))}, Return: t1 + 3})
+	// a save of the final state to a fresh store must be complete: a fresh trie on it reads the final content
+	fresh := util.NewMemoryNodeDB()
+	if serr := m.SaveChanges(context.Background(), fresh, false); serr != nil {
+		c.Violate("", "final SaveChanges failed: %v", serr)
+	} else {
+		want := map[string][]byte{}
+		for k, v := range sm {
+			want[k] = []byte(v)
+		}
+		if f := lab.CheckMap(lab.NewMPT(fresh, c16version, m.GetRoot()), want, nil); f != "" {
+			c.Violate("", "state saved after the concurrent history is not the final content: %s", f)
+		}
+		c.Count("final_saves_checked", 1)
+	}
 	// overlap measure
 	overlaps, updReadOverlaps := 0, 0
 	for i := range ops {
@@ -405,13 +482,13 @@ func init() {
 		ID:    "C16",
 		Level: "exploration",
 		Race:  true,
-		Rule: "histories: 3..6 goroutines x 4..8 (quick) / 4..11 (thorough) operations (insert with globally unique value, delete, lookup, full Iterate, GetRoot, root via GetChanges, SaveChanges+GetChangeCount) on 3..5 structurally colliding paths of one trie over a store wrapper that injects Gosched/µs sleeps at GetNode/PutNode/DeleteNode, " +
+		Rule: "histories: 3..6 goroutines x 4..8 (quick) / 4..11 (thorough) operations (insert with globally unique value, delete, lookup, full Iterate, GetRoot, GetChanges as a snapshot (root plus the content reachable through the returned change set, which must belong to one state), SaveChanges with a plain, an already cancelled and a 20 µs context + GetChangeCount) on 3..5 structurally colliding paths of one trie over a store wrapper that injects Gosched/µs sleeps at GetNode/PutNode/DeleteNode, " +
 			"GOMAXPROCS in {1,2,4,16}; call/return stamped at the client boundary from one monotonic clock; a final sequential Iterate+GetRoot is appended. Each history is checked offline with porcupine against a sequential map model in which Iterate must equal the whole map and every root read must equal the independent canonical root (C02 reference) of the state at its linearization point. " +
 			"reader runs: 4..8 goroutines doing lookups, Iterate, HasMissingNodes, GetMissingNodeKeys on a trie whose store lacks ~20% of the nodes; results must equal the sequential results. Everything runs in the -race binary; each distinct race report (pair of outermost 0chain/common frames) is a violation. " +
 			"non-trivial = history with at least one update overlapping another goroutine's operation; distinct by (scripts, overlap count)",
 		Cases: func(tier string) int { h, r := c16layout(tier); return h + r },
 		Run:   runC16,
-		Floors: map[string]int64{"histories": 4500, "linearizable": 4500, "operations": 80000, "overlapping_pairs": 20000, "histories_with_overlapping_updates": 2000, "reader_runs": 200, "reader_runs_with_missing_nodes": 150,
+		Floors: map[string]int64{"histories": 4500, "linearizable": 4500, "operations": 80000, "overlapping_pairs": 20000, "histories_with_overlapping_updates": 2000, "reader_runs": 200, "reader_runs_with_missing_nodes": 150, "final_saves_checked": 4500,
 			"gomaxprocs:1": 100, "gomaxprocs:16": 100},
 		Assumptions: []string{
 			"histories are small (<= 6 x 11 operations) and numerous; a porcupine timeout (30 s) would be inconclusive, never a violation",
